@@ -71,7 +71,7 @@ def snapshot_repo():
     changes, so the implementation is never imported from /repo itself."""
     global _snapshot
     if _snapshot is None:
-        dst = scratch_dir('impl')
+        dst = scratch_dir('impl_%d' % os.getpid())      # spawned workers share the scratch root, not the copy
         shutil.copytree(os.path.join(REPO, 'smartquery'), os.path.join(dst, 'smartquery'),
                         ignore=shutil.ignore_patterns('__pycache__'))
         # force regeneration of the LALR tables from rules.py / lexer.py of the tree under test
